@@ -10,6 +10,8 @@
 #include "libtopology/cola_topology_addon.h"
 #include "libtopology/topology_graph.h"
 #include "libvpsc/assertions.h"
+#include <array>
+#include <tuple>
 
 #ifdef ADAPTAGRAMS_VERIF
 namespace topology { extern int verif_topology_phase; }
@@ -34,6 +36,9 @@ struct TopoSession : Session {
     std::vector<topology::Node *> tn;
     std::vector<topology::Edge *> routes;
     std::vector<topology::Node *> resNodes; std::vector<topology::Edge *> resRoutes;
+    std::map<std::tuple<unsigned, unsigned, int>, int> prevPar;
+    std::map<std::pair<unsigned, unsigned>, std::array<double, 6>> prevGeo;
+    std::map<unsigned, std::string> prevPath;
     std::vector<topology::Node *> *curNodes = nullptr;
     std::vector<topology::Edge *> *curRoutes = nullptr;
     ConstrainedFDLayout *alg = nullptr;
@@ -90,6 +95,55 @@ struct TopoSession : Session {
                 if (std::fabs(turn) > 1e-6 && turn * side < 0) { violate("C13", "bends", "bend-turns-away-from-its-node", fmt("edge %u point %zu at (%g,%g) node %u %s", e->id, k, B.x, B.y, bp->node->id, ctx.c_str())); return; }
             }
             ei++;
+        }
+        // "which side of every node each edge passes is the same before and after": for every edge and every bystander node,
+        // the parity of crossings of the path with the upward and the rightward ray from the node's centre may only change
+        // between two observed states if an end point of the path changed sides of that ray's line (then it legitimately
+        // swept over the ray); a flip without that means the path jumped over the node between two states
+        {
+            std::map<std::tuple<unsigned, unsigned, int>, int> par;
+            std::map<std::pair<unsigned, unsigned>, std::array<double, 6>> geo;      // sx, sy, tx, ty, cx, cy
+            for (auto e : *curRoutes) {
+                topology::ConstEdgePoints pts; e->getPath(pts);
+                if (pts.size() < 2) continue;
+                std::vector<Pt> P; for (auto q : pts) P.push_back(Pt{q->posX(), q->posY()});
+                for (auto nd : N) {
+                    if (nd->id == pts.front()->node->id || nd->id == pts.back()->node->id) continue;
+                    Pt c{nd->rect->getCentreX(), nd->rect->getCentreY()};
+                    int up = 0, right = 0;
+                    for (size_t k = 1; k < P.size(); k++) {
+                        Pt a = P[k - 1], b = P[k];
+                        // upward ray (towards smaller y): half-open rule on x
+                        if ((a.x <= c.x) != (b.x <= c.x)) { double y = a.y + (b.y - a.y) * (c.x - a.x) / (b.x - a.x); if (y < c.y) up ^= 1; }
+                        if ((a.y <= c.y) != (b.y <= c.y)) { double x = a.x + (b.x - a.x) * (c.y - a.y) / (b.y - a.y); if (x > c.x) right ^= 1; }
+                    }
+                    par[std::make_tuple(e->id, nd->id, 0)] = up; par[std::make_tuple(e->id, nd->id, 1)] = right;
+                    geo[{e->id, nd->id}] = {P.front().x, P.front().y, P.back().x, P.back().y, c.x, c.y};
+                }
+            }
+            if (!prevPar.empty()) {
+                for (auto &kv : par) {
+                    auto it = prevPar.find(kv.first);
+                    if (it == prevPar.end() || it->second == kv.second) continue;
+                    unsigned eid = std::get<0>(kv.first), nid = std::get<1>(kv.first); int ray = std::get<2>(kv.first);
+                    auto g0 = prevGeo[{eid, nid}], g1 = geo[{eid, nid}];
+                    // legitimate if an end point changed sides of the ray's line (x for the upward ray, y for the rightward ray)
+                    bool endSwept = ray == 0 ? (((g0[0] <= g0[4]) != (g1[0] <= g1[4])) || ((g0[2] <= g0[4]) != (g1[2] <= g1[4])))
+                                             : (((g0[1] <= g0[5]) != (g1[1] <= g1[5])) || ((g0[3] <= g0[5]) != (g1[3] <= g1[5])));
+                    if (endSwept) { probe("topology.side-parity-change-explained-by-an-end-point"); continue; }
+                    // both rays must agree that something happened for a plain jump over the node; a single-ray flip can also come from
+                    // the path's far part moving across the ray beyond the node -- require the flip on this ray and no explanation
+                    std::string pth;
+                    for (auto e2 : *curRoutes) if (e2->id == eid) { topology::ConstEdgePoints pp; e2->getPath(pp); for (auto q : pp) pth += fmt("(%g,%g)", q->posX(), q->posY()); }
+                    violate("C13", "same-side", "edge-changed-sides-of-a-node-between-two-states", fmt("edge %u vs node %u (%s ray parity %d -> %d) %s; before: s(%g,%g) t(%g,%g) c(%g,%g) path %s; now: s(%g,%g) t(%g,%g) c(%g,%g) path %s", eid, nid, ray == 0 ? "upward" : "rightward", it->second, kv.second, ctx.c_str(), g0[0], g0[1], g0[2], g0[3], g0[4], g0[5], prevPath[eid].c_str(), g1[0], g1[1], g1[2], g1[3], g1[4], g1[5], pth.c_str()));
+                    prevPar.clear();
+                    return;
+                }
+                probe("topology.side-parity-compared");
+            }
+            prevPar = par; prevGeo = geo;
+            prevPath.clear();
+            for (auto e2 : *curRoutes) { topology::ConstEdgePoints pp; e2->getPath(pp); std::string pth; for (auto q : pp) pth += fmt("(%g,%g)", q->posX(), q->posY()); prevPath[e2->id] = pth; }
         }
         probe("topology.invariant-evaluated");
     }
